@@ -116,7 +116,8 @@ func getAssets() (*assets, error) {
 	return newAssets()
 }
 
-var texts = map[int]string{1: "AVfi ab", 2: "Tofu fi"}
+// strings 3..8 (standard font only): unbalanced and balanced parentheses and a backslash inside a shown literal string
+var texts = map[int]string{1: "AVfi ab", 2: "Tofu fi", 3: "a(b", 4: "a)b", 5: "a\\b", 6: "(x)", 7: "1) item :-(", 8: "[0, 1)"}
 var uris = map[int]string{1: "http://example.com/a", 2: "http://x.y/(a)\\b)"}
 
 func cpString(cps []int) string {
@@ -132,6 +133,7 @@ func cpString(cps []int) string {
 type result struct {
 	data  []byte
 	marks []int // bytes written after New, after every call, after Close
+	want  []int // bytes the layout asks to show in the standard (WinAnsi) font, in drawing order
 	where string
 }
 
@@ -226,6 +228,18 @@ func execute(s *Scenario, a *assets) (res *result, ms []core.Mismatch) {
 				t = rt.ToText(0, 0, canvas.Left, canvas.Top, 0, 0)
 			} else {
 				t = canvas.NewTextLine(face, texts[c.B], canvas.Left)
+			}
+			if c.A == 3 {
+				// what the layout hands to the writer for a standard font: the characters of the laid-out glyphs
+				t.WalkSpans(func(x, y float64, span canvas.TextSpan) {
+					for _, g := range span.Glyphs {
+						if g.Text < 128 {
+							res.want = append(res.want, int(g.Text))
+						} else {
+							res.want = append(res.want, -1)
+						}
+					}
+				})
 			}
 			p.RenderText(t, m.Translate(0, 40))
 		case "link":
@@ -332,6 +346,7 @@ type pageRec struct {
 	Seq    []string `json:"seq"`
 	Ok     bool     `json:"ok"`
 	Annots int      `json:"annots"`
+	Shown  []int    `json:"shown"` // decoded bytes of the string operands of TJ / Tj while a simple Type1 font is selected
 }
 type DocRec struct {
 	Header    bool      `json:"header"`
@@ -547,7 +562,7 @@ func Project(data []byte) (*DocRec, *oracle.PDFFile) {
 		walk(cat.Get("Pages"), nil, -1, true)
 	}
 	for _, lf := range leaves {
-		pr := pageRec{N: lf.num, Uses: []useRec{}, Ops: []opRec{}, Seq: []string{}, Ok: true}
+		pr := pageRec{N: lf.num, Uses: []useRec{}, Ops: []opRec{}, Seq: []string{}, Ok: true, Shown: []int{}}
 		// resources: own or inherited
 		resV := lf.dict.Get("Resources")
 		for i := len(lf.parents) - 1; resV == nil && i >= 0; i-- {
@@ -592,6 +607,13 @@ func Project(data []byte) (*DocRec, *oracle.PDFFile) {
 		default:
 			pr.Ok = false
 		}
+		simpleFont := false
+		fontDict := f.ResolveDict(func() oracle.PDFValue {
+			if res == nil {
+				return nil
+			}
+			return res.Get("Font")
+		}())
 		seenOp := map[opRec]bool{}
 		seenUse := map[useRec]bool{}
 		last := ""
@@ -609,6 +631,32 @@ func Project(data []byte) (*DocRec, *oracle.PDFFile) {
 				pr.Seq = append(pr.Seq, op.Op)
 			}
 			last = op.Op
+			switch op.Op {
+			case "Tf":
+				simpleFont = false
+				if len(op.Args) == 2 && fontDict != nil {
+					if n, ok := op.Args[0].(oracle.PDFName); ok {
+						if fd := f.ResolveDict(fontDict.Get(string(n))); fd != nil {
+							st, _ := fd.Get("Subtype").(oracle.PDFName)
+							simpleFont = st == "Type1"
+						}
+					}
+				}
+			case "TJ", "Tj":
+				if simpleFont && len(op.Args) == 1 {
+					items, isArr := op.Args[0].(oracle.PDFArray)
+					if !isArr {
+						items = oracle.PDFArray{op.Args[0]}
+					}
+					for _, it := range items {
+						if str, ok := it.(oracle.PDFString); ok {
+							for _, b := range str.B {
+								pr.Shown = append(pr.Shown, int(b))
+							}
+						}
+					}
+				}
+			}
 			// name operands that refer to resources (the category is decided by the spec from the operator)
 			var name oracle.PDFValue
 			switch op.Op {
@@ -649,6 +697,7 @@ type event struct {
 	InfoAt *int              `json:"infoAt,omitempty"`
 	Defs   *[]defRec         `json:"defs,omitempty"`
 	Doc    *DocRec           `json:"doc,omitempty"`
+	Want   *[]int            `json:"want,omitempty"`
 }
 
 // traceOf turns one executed document into its events.
@@ -672,7 +721,11 @@ func traceOf(id int, s *Scenario, r *result) ([]byte, *DocRec) {
 		}
 		ev := event{Op: "CALL", ID: id, Defs: &defs}
 		if i+2 == len(r.marks) {
-			ev.Op, ev.Doc = "CLOSE", doc
+			want := r.want
+			if want == nil {
+				want = []int{}
+			}
+			ev.Op, ev.Doc, ev.Want = "CLOSE", doc, &want
 		}
 		enc.Encode(ev)
 	}
@@ -731,7 +784,11 @@ func detail(sig string, s *Scenario, doc *DocRec) string {
 	switch {
 	case strings.HasPrefix(sig, "info-") || sig == "string-escape-cr":
 		fmt.Fprintf(&sb, "; request(code points)=%v; stored bytes: Title=%v Subject=%v Keywords=%v Author=%v Creator=%v Lang=%v", s.Req, doc.Infod.Title, doc.Infod.Subject, doc.Infod.Keywords, doc.Infod.Author, doc.Infod.Creator, doc.Cat.Lang)
-	case strings.HasPrefix(sig, "operator-") || strings.HasPrefix(sig, "text-") || strings.HasPrefix(sig, "saverestore-"):
+	case strings.HasPrefix(sig, "shown-text-"):
+		for i, p := range doc.Pages {
+			fmt.Fprintf(&sb, "; page %d shows %q in standard fonts", i+1, string(bytesOf(p.Shown)))
+		}
+	case strings.HasPrefix(sig, "operator-") || strings.HasPrefix(sig, "text-") || strings.HasPrefix(sig, "saverestore-") || sig == "content-unreadable":
 		for i, p := range doc.Pages {
 			fmt.Fprintf(&sb, "; page %d operators=%s", i+1, strings.Join(p.Seq, " "))
 		}
@@ -748,6 +805,14 @@ func detail(sig string, s *Scenario, doc *DocRec) string {
 		fmt.Fprintf(&sb, "; tree=%+v catalog=%+v", doc.Tree, doc.Cat)
 	}
 	return sb.String()
+}
+
+func bytesOf(xs []int) []byte {
+	b := make([]byte, len(xs))
+	for i, x := range xs {
+		b[i] = byte(x)
+	}
+	return b
 }
 
 func progString(p []Call) string {
@@ -870,7 +935,7 @@ func filterStdout(c *core.Ctx) (restore func()) {
 }
 
 func (d Driver) Run(c *core.Ctx) error {
-	c.Rule = "scenario = document program (call slots over path/image/text/link/newpage with fill, stroke, alpha, fill rule, image alpha and encoding, font kind, writing mode) x {compress} x {subset} x metadata profile (classes of text per Info field and Lang), generated by TLC from spec/PDFDoc.tla (exhaustive up to 2 calls x 4 option sets and up to 3 calls with default options in the quick tier, up to 3 calls x 4 option sets in the thorough tier, over the small alphabet; the metadata sweep; RandomSubset programs over the full alphabet); every scenario is executed on the real pdf writer, its bytes are parsed by the independent reader and the record is validated by Trace_PDFDoc.tla; non-trivial = at least two different kinds of call (a second page counts), or a single-call document of the metadata sweep whose title has non-ASCII / CR / parenthesis / backslash characters; distinct by (options, program, profile, infoAt)"
+	c.Rule = "scenario = document program (call slots over path/image/text/link/newpage with fill, stroke, alpha, fill rule, image alpha and encoding, font kind incl. a standard-14 font with strings that contain ( ) \\, writing mode) x {compress} x {subset} x metadata profile (classes of text per Info field and Lang), generated by TLC from spec/PDFDoc.tla (exhaustive up to 2 calls x 4 option sets and up to 3 calls with default options in the quick tier, up to 3 calls x 4 option sets in the thorough tier, over the small alphabet; the standard-font sweep (108 documents: strings a(b, a)b, a\\b, (x), 1) item :-(, [0, 1) between other elements); the metadata sweep; RandomSubset programs over the full alphabet); every scenario is executed on the real pdf writer, its bytes are parsed by the independent reader and the record is validated by Trace_PDFDoc.tla; non-trivial = at least two different kinds of call (a second page counts), or a single-call document of the metadata sweep whose title has non-ASCII / CR / parenthesis / backslash characters; distinct by (options, program, profile, infoAt)"
 	c.Assumptions = []string{
 		"the independent reader (oracle/pdfread.go) implements the classic file structure of ISO 32000-1 (one xref table, no object streams); Flate/ASCII85/ASCIIHex are decoded, DCT is verified with image/jpeg, any other filter counts as 'unsupported' and is never a failure",
 		"font programs, image samples and colour values are not inspected here (C18 / C12); only the file structure, resources, operator syntax and metadata",
@@ -999,6 +1064,8 @@ func (d Driver) Run(c *core.Ctx) error {
 		goRun(tlc.Opts{Module: "PDFDoc", Workers: 4, Config: genCfg(2, "all", "small", 0, false)})
 		goRun(tlc.Opts{Module: "PDFDoc", Workers: 4, Config: genCfg(3, "all1", "small", 0, false)})
 	}
+	// text in a standard (not embedded, WinAnsi) font with parentheses / backslash in the shown strings
+	goRun(tlc.Opts{Module: "PDFDoc", Workers: 2, Config: genCfg(3, "std", "small", 0, false)})
 	// metadata sweep: classes of text x fields x Lang x SetInfo before/after drawing
 	goRun(tlc.Opts{Module: "PDFDoc", Workers: 4, Config: genCfg(1, "info", "small", c.Pick(0, 1), false)}) // NRand # 0: with and without compression
 	// random programs over the full alphabet with random metadata profiles
